@@ -41,6 +41,8 @@ def main():
         kf = json.load(f)
     manual = [e for e in kf["findings"] if not e.get("auto")]
     adj = json.load(open(ADJ)) if os.path.exists(ADJ) else {}
+    adj2_path = os.path.join(VERIF_DIR, "tools", "adjudication.json")
+    adj2 = json.load(open(adj2_path)) if os.path.exists(adj2_path) else {}
     auto = []
     summary = {}
     for fn in sorted(os.listdir(DATA)):
@@ -59,8 +61,11 @@ def main():
             title = TITLES.get(prop, lambda s: s)(sig)
             disposition = "genuine"
             note = None
-            if prop == "C03" or (prop == "C20" and "E1:" in sig and "E2" not in sig and "E3" not in sig):
-                ad = adj.get(sig)
+            # properties whose oracle is an independent implementation or my reading of informal documentation:
+            # a disagreement is a finding only once adjudicated (tools/c03_adjudication.json, tools/adjudication.json);
+            # otherwise it is a rank-exact domain exclusion and is not printed as KNOWN-FINDING
+            if prop in ("C03", "C06", "C08") or (prop == "C20" and "E1:" in sig and "E2" not in sig and "E3" not in sig):
+                ad = adj.get(sig) or adj2.get(prop, {}).get(sig)
                 disposition = ad["disposition"] if ad else "undecided"
                 note = ad.get("note") if ad else None
             e = {"id": sig_id(prop, sig), "property": prop, "status": "open", "auto": True, "disposition": disposition, "title": title[:300],
